@@ -21,12 +21,12 @@ TECHNIQUE = "bounded exhaustive enumeration of input texts; read loop on the rea
 SOUP = ["a", "X", "_", "0", "'", '"', "`", "\\", "(", ")", "[", "]", "{", "}", ",", "|", ".", " ", "\n", "%", "/",
         "*", "-", ":", "é", "\x01"]
 TAIL = " .\nsentinel(1).\nsentinel(2).\n"
-RULE = ("(a) quick: all strings of length <= 3 plus length 4 over a 19-character sub-alphabet; thorough: all of length <= 4 "
+RULE = ("(a) quick: all strings of length <= 3 plus length 4 over a 16-character sub-alphabet; thorough: all of length <= 4 "
         "plus length 5 over a 11-character sub-alphabet, "
         "over the 26-character soup alphabet, each followed by ' .\\nsentinel(1).\\nsentinel(2).\\n'; (b) every single-character "
         "deletion, insertion and substitution (quick: 10 replacement characters; thorough: all 26) of a 68-clause corpus of (mostly valid) "
         "text, followed by the sentinels; and, under each of the operator tables default + op(1100,xfy,'|'), op(700,xfx,a), "
-        "op(200,xfy,a), op(200,fy,a), op(200,xf,a), op(0,yfx,-): all strings of length <= 4 over a 12-character "
+        "op(200,xfy,a), op(200,fy,a), op(200,xf,a), op(0,yfx,-): all strings of length <= 4 over a 10-character (thorough 12) "
         "sub-alphabet and the corpus mutations with 4 (thorough 10) replacement characters. Inputs are files read with read_term/2 until end_of_file (cap 16/24 reads). "
         "Non-trivial: at least one read raises a syntax error.")
 LEVEL_TEXT = ("bounded exhaustive exploration of the real lexer/parser/stream stack in worker subprocesses (a panic, crash or "
@@ -36,7 +36,7 @@ ASSUMPTIONS = ["driver transport; input files are written byte-exactly by the ex
                "an end token is a '.' that starts a token and is followed by layout or end of file (ISO 6.4.8)"]
 MIN_OUTCOMES = 3
 SUB5 = ["a", "0", "'", '"', "\\", "(", ")", ",", ".", " ", "\n"]
-SUB4 = ["a", "X", "_", "0", "'", '"', "\\", "(", ")", "[", ",", "|", ".", " ", "\n", "%", "/", "*", "\x01"]
+SUB4 = ["a", "X", "0", "'", '"', "\\", "(", ")", "[", ",", "|", ".", " ", "\n", "%", "\x01"]
 MUT_Q = ["a", "X", "0", "'", '"', "\\", "(", ".", " ", "\x01"]
 
 # operator-table variants: name -> (ops applied on top of the default table, ops undoing them)
@@ -51,7 +51,7 @@ TABLES = {
 }
 VARIANTS = [t for t in TABLES if t != "default"]
 # reduced families run under each variant table
-VSOUP = {"quick": ["a", "X", "0", "(", ")", "[", "]", ",", "|", ".", " ", "-"],
+VSOUP = {"quick": ["a", "X", "(", ")", "[", ",", "|", ".", " ", "-"],
          "thorough": ["a", "X", "0", "(", ")", "[", "]", ",", "|", ".", " ", "-"]}
 VMUT = {"quick": ["a", "|", "(", "-"], "thorough": MUT_Q}
 
@@ -149,7 +149,7 @@ def _bound_default(tier):
     alpha = SOUP if tier == "thorough" else MUT_Q
     nm = sum(1 + sum(1 for _ in mutations(c, alpha)) for c in CORPUS)
     return "%d soup strings (%s) + %d corpus mutations (%d clauses, %d replacement characters)" % (
-        ns, "length <= 4, and length 5 over 11 characters" if tier == "thorough" else "length <= 3, and length 4 over 19 characters",
+        ns, "length <= 4, and length 5 over 11 characters" if tier == "thorough" else "length <= 3, and length 4 over 16 characters",
         nm, len(CORPUS), len(alpha))
 
 
